@@ -154,7 +154,7 @@ def run(chk: Check):
         run_program(chk, da, prog, sources, want, rc)
     import random as _random
     api_rng = _random.Random(f"{chk.pid}-api-family-{chk.seed}")      # own stream: the families above keep theirs
-    for prog, sources, want in progs.gen_api_programs(api_rng, 3000 if chk.tier == "thorough" else 300):
+    for prog, sources, want in progs.gen_api_programs(api_rng, 4000 if chk.tier == "thorough" else 700):
         chk.count("api-call:" + next(q[1] for q in progs.all_nodes(prog) if q[0] == "call"))
         run_program(chk, da, prog, sources, want, rc)
     # model correspondence: every captured instance of a modelled rule, plus a directed stream that invokes the
